@@ -451,6 +451,8 @@ def _corrupt(ev):
                 e["rem_len"] += 1        # a result that claims to have consumed one byte less
             else:
                 e["idx"] += 1            # OverFull may consume any amount: falsify the reported fill level instead
+        elif op == "link_done" and e.get("clean") and e.get("delivered"):
+            e["delivered"] = []          # an owed message that never came out
         elif op == "io_ser":
             e["written"].append(0)
         elif op == "io_de" and e["msgs"] and e["msgs"][0]["res"].get("ok") == 1:
